@@ -269,7 +269,11 @@ def pregen(check):
         text = generate(vcheck.REPO)
     except (Untranslatable, OSError) as e:
         check.broken.append("T1 tie: encoding/wkt left the translatable subset: %s" % e)
-        return
+        # deterministic state: a Gen.lean that does not elaborate, so the tie obligations are reported
+        # as not discharged instead of being checked against a stale translation
+        msg = str(e).replace('"', "'").replace("\\", "/")
+        text = ("import GeomV.C17.Model\n/-! The T1 translator could not translate the current source. -/\n"
+                "example : \"untranslatable: %s\" = \"\" := by decide\n" % msg)
     old = open(path).read() if os.path.exists(path) else None
     if old != text:
         open(path, "w").write(text)
